@@ -252,11 +252,66 @@ def transform_rows(repo, class_domain, unparsed):
                         if key in seen:
                             continue          # several branches of one method to the same domain: keep the first
                         seen.add(key)
-                        rows.append({'src': src, 'method': f.name, 'dst': dom.value, 'scale': sc, 'direct': direct,
+                        rows.append({'src': src, 'method': f.name, 'dst': dom.value, 'scale': sc,
+                                     'direct': direct or assigns_units(f),
                                      'where': '%s:%d' % (fn, call.lineno)})
                     except Unparsed as e:
                         unparsed.append({'item': '%s.%s' % (node.name, f.name), 'why': str(e)})
     return rows
+
+
+def assigns_units(fn, owner=None):
+    """does the function contain `<owner>.units = ...` (any name when owner is None)?"""
+    for sub in ast.walk(fn):
+        if isinstance(sub, ast.Assign):
+            for t in sub.targets:
+                if isinstance(t, ast.Attribute) and t.attr == 'units' and isinstance(t.value, ast.Name) \
+                        and (owner is None or t.value.id == owner):
+                    return True
+    return False
+
+
+def method_of(tree, cname, mname):
+    for node in tree.body:
+        if isinstance(node, ast.ClassDef) and node.name == cname:
+            for f in node.body:
+                if isinstance(f, ast.FunctionDef) and f.name == mname:
+                    return f
+    return None
+
+
+def code_flags(repo, unparsed):
+    """structural facts about the operator code that the hand model branches on"""
+    lc = os.path.join(repo, 'lcapy')
+    tree = ast.parse(open(os.path.join(lc, 'expr.py')).read())
+    flags = {}
+    f = method_of(tree, 'Expr', '__truediv__')
+    flags['divRestoresUnits'] = bool(f) and assigns_units(f, 'x')
+    f = method_of(tree, 'Expr', '__pow__')
+    flags['powSetsUnits'] = bool(f) and assigns_units(f)
+    rec = []
+    for fn, cn in (('impedancemixin.py', 'ImpedanceMixin'), ('admittancemixin.py', 'AdmittanceMixin')):
+        f = method_of(ast.parse(open(os.path.join(lc, fn)).read()), cn, '__rtruediv__')
+        rec.append(bool(f) and assigns_units(f))
+    if rec[0] != rec[1]:
+        unparsed.append({'item': 'flags.recipSetsUnits', 'why': 'the two immittance mixins differ'})
+    flags['recipSetsUnits'] = all(rec)
+    # the omega-domain special cases of __compat_add__: top level, or guarded by a test on the quantities
+    f = method_of(tree, 'Expr', '__compat_add__')
+    guarded = None
+    if f:
+        for st in f.body:
+            if isinstance(st, ast.If):
+                test = ast.unparse(st.test)
+                if 'is_phasor_ratio_domain' in test:
+                    guarded = False
+                elif 'quantity' in test and any(isinstance(b, ast.If) and 'is_phasor_ratio_domain' in ast.unparse(b.test) for b in st.body):
+                    guarded = ('self.quantity == x.quantity' in test)
+    if guarded is None:
+        unparsed.append({'item': 'flags.omegaNeedsQuantity', 'why': 'omega-domain special cases not found in __compat_add__'})
+        guarded = False
+    flags['omegaNeedsQuantity'] = guarded
+    return flags
 
 
 def is_change(call):
@@ -408,6 +463,9 @@ def generate(repo='/repo'):
     tr_rows = transform_rows(repo, class_domain, unparsed)
     info['transform_rows'] = len(tr_rows)
 
+    flags = code_flags(repo, unparsed)
+    info['flags'] = flags
+
     # ---- 6. SI dimensions known to Units._mapping, on the box |v|,|a| <= 4, |t| <= 6
     known = []
     try:
@@ -474,10 +532,15 @@ def generate(repo='/repo'):
     w(',\n'.join('  ' + ', '.join('⟨%d, %d, %d⟩' % k for k in known[i:i + 8]) for i in range(0, len(known), 8)))
     w(']')
     w('')
+    w('/-- structural facts read from the operator code (expr.py, impedancemixin.py, admittancemixin.py) -/')
+    w('def codeFlags : Flags :=')
+    w('  { divRestoresUnits := %s, powSetsUnits := %s, recipSetsUnits := %s, omegaNeedsQuantity := %s }' % tuple(
+        lean_b(flags[k]) for k in ('divRestoresUnits', 'powSetsUnits', 'recipSetsUnits', 'omegaNeedsQuantity')))
+    w('')
     w('def tables : Tables :=')
     w('  { mul := mulTable, div := divTable, classes := classTable, domains := domainTable,')
     w('    quantities := quantityTable, exprmap := exprmapTable, transforms := transformTable,')
-    w('    knownDims := knownDims }')
+    w('    knownDims := knownDims, flags := codeFlags }')
     w('')
     w('end Lcapy.Gen.Q')
     text = '\n'.join(out) + '\n'
